@@ -495,7 +495,8 @@ FLOATS = ["0.0", "-0.0", "1.5", "-2.25", "1e+100", "1e-07", "1e+16", "nan", "inf
           "3.141592653589793", "5e-324", "123456.789"]
 COMPLEXES = [["0.0", "1.0"], ["0.0", "-1.0"], ["1.0", "2.0"], ["nan", "inf"], ["0.0", "0.0"],
              ["-0.0", "2.5"], ["inf", "-inf"], ["1.5", "nan"], ["-3.0", "-0.0"], ["1e-05", "1e+20"],
-             ["0.0", "inf"], ["0.0", "nan"], ["-inf", "1.0"]]
+             ["0.0", "inf"], ["0.0", "nan"], ["-inf", "1.0"], ["1.0", "-0.0"], ["-0.0", "-0.0"],
+             ["2.5", "-0.0"], ["inf", "-0.0"], ["nan", "-0.0"]]
 BYTES = ["", "abc", "\x00\xff\"\\\n", "a b", "\r\n\t", "{x}", "'", "\x80\x7f"]
 CONVS = [None, None, None, "r", "s", "a", "r", "s"]
 ODD_CONVS = ["z", "R", "1", "!", ":", " ", "}", "é"]
@@ -524,8 +525,10 @@ def gen_string(rng, brackets=False, prof="readable"):
     s = "".join(rng.choice(STR_ALPHA) if rng.random() < 0.6 else rng.choice("abc xyz")
                 for _ in range(n))
     r = rng.random()
-    if brackets and r < 0.15:
-        s = rng.choice(["\n", "\n\n", "\n "]) + s
+    if brackets and r < 0.3:
+        s = rng.choice(["\n", "\n\n", "\n ", "\n\t"]) + s
+    if not brackets and r < 0.08:       # backslash N brace: looks like a named escape when printed
+        s += rng.choice(["\\N{", "\\N{x}", "\\\\N{BULLET}", "\\N{{"])
     b = None
     if brackets:
         b = rng.choice(DELIMS)
@@ -564,7 +567,7 @@ def gen_atom(rng, prof="readable"):
 
 def gen_spec(rng, depth, prof, nest):
     """Children 1.. of an FComponent: literal strings and nested fields."""
-    n = rng.choice([1, 1, 1, 1, 1, 1, 2, 3])
+    n = rng.choice([1, 1, 1, 2, 2, 3])
     out = []
     for _ in range(n):
         if (not out or out[-1]["t"] != "Str") and rng.random() < 0.55:
@@ -583,6 +586,7 @@ def gen_fcomp(rng, depth, prof, nest=0, ts=False):
         val = gen_sym(rng, "plain")
     elif r < 0.6:
         val = rng.choice([{"t": "Dict", "c": [gen_atom(rng, prof), gen_atom(rng, prof)]},
+                          {"t": "Dict", "c": []}, {"t": "Dict", "c": [gen_ir(rng, max(0, depth - 1), prof)]},
                           {"t": "Set", "c": [gen_atom(rng, prof)]},
                           gen_string(rng, False, prof), gen_fstr(rng, depth - 1, prof),
                           {"t": "Kw", "v": rng.choice(KW_NAMES)}])
@@ -629,7 +633,7 @@ def gen_fstr(rng, depth, prof, brackets=None):
             s = gen_string(rng, False, prof)
             if b is not None:
                 s["v"] = s["v"].replace("\r", "\n").replace("]" + b + "]", "]")
-            if not kids and b is not None and rng.random() < 0.15:
+            if not kids and b is not None and rng.random() < 0.3:
                 s["v"] = "\n" + s["v"]
             if s["v"] or prof == "any":
                 kids.append(s)
@@ -645,8 +649,14 @@ def gen_sugar(rng, depth, prof):
         return expr(sym(h), gen_ir(rng, depth - 1, prof), gen_ir(rng, depth - 1, prof))
     if r < 0.12:   # unusual arity
         return expr(sym(h), *[gen_ir(rng, depth - 1, prof) for _ in range(rng.choice([0, 2, 3]))])
-    if r < 0.3:
-        arg = rng.choice([sym("@x"), sym("@"), sym("*x"), sym("a"), gen_sym(rng)])
+    if r < 0.4:
+        # forms whose printed text starts with `@` (after `~` they must not read as `~@`)
+        arg = rng.choice([sym("@x"), sym("@"), sym("*x"), sym("a"), gen_sym(rng),
+                          expr(sym("."), sym("@a"), sym("b")), expr(sym("."), sym("@"), sym("b")),
+                          expr(sym("."), sym("@x"), gen_sym(rng, "plain"), sym("c")),
+                          expr(sym("."), sym("@@"), sym("y"))])
+        if rng.random() < 0.5:
+            h = "unquote"
     else:
         arg = gen_ir(rng, depth - 1, prof)
     return expr(sym(h), arg)
@@ -654,8 +664,10 @@ def gen_sugar(rng, depth, prof):
 
 def gen_dotted(rng, prof):
     r = rng.random()
-    parts = [gen_sym(rng, "plain") if rng.random() < 0.9 else sym(rng.choice([".", "..", "...", "None"]))
-             for _ in range(rng.randint(1, 4))]
+    # corner cases: all-dots parts, parts that make the dotted spelling a number (._1), None
+    parts = [gen_sym(rng, "plain") if rng.random() < 0.8 else
+             sym(rng.choice([".", "..", "...", "None", "_1", ",1", "_1e5", "_1j", "_0"]))
+             for _ in range(rng.choice([1, 1, 2, 3, 4]))]
     if r < 0.45:
         if len(parts) < 2:
             parts.append(sym("b"))
